@@ -17,7 +17,7 @@ const E18: u128 = 1_000_000_000_000_000_000;
 pub struct RegistryRemove;
 impl Driver for RegistryRemove {
     fn gen(&self, rng: &mut Rng, _i: u64) -> Value {
-        let n = 2 + rng.next() % 4;
+        let n = 1 + rng.next() % 5;
         let ds: Vec<String> = (0..n).map(|_| rng.amount(1_000_000).to_string()).collect();
         let can = match rng.next() % 3 { 0 => "full", 1 => "none", _ => "partial" };
         json!({"delegations": ds, "remove": (rng.next() % n).to_string(), "can_redelegate": can})
@@ -40,6 +40,7 @@ impl Driver for RegistryRemove {
         let res = remove_validator(deps.as_mut(), mock_env(), mock_info("owner", &[]), names[rm].clone());
         let mut c = BTreeMap::new();
         let mut obs = json!({"err": res.as_ref().err().map(|e| e.to_string())});
+        if ds.len() == 1 { c.insert("rv#C13.never_removes_the_last_validator".to_string(), res.is_err()); }
         if let Ok(r) = res {
             // registry content after the call
             let still = basset_sei_validators_registry::registry::REGISTRY.has(&deps.storage, names[rm].as_bytes());
@@ -108,15 +109,23 @@ impl Driver for DispatcherSwap {
         let mut c = BTreeMap::new();
         let mut obs = json!({"err": res.as_ref().err().map(|e| e.to_string())});
         if let Ok(r) = res {
+            // the messages run in order: each swap offers coins the dispatcher holds at that moment; what an earlier swap returns
+            // (simulated 1:1 by the swap contract of this world) is there for a later one
             let mut offered: BTreeMap<String, u128> = BTreeMap::new();
+            let mut bal = held.clone();
+            let mut ok = true;
             for m in r.messages.iter() {
-                if let CosmosMsg::Wasm(WasmMsg::Execute { funds, .. }) = &m.msg { for f in funds { *offered.entry(f.denom.clone()).or_insert(0) += f.amount.u128(); } }
+                if let CosmosMsg::Wasm(WasmMsg::Execute { funds, msg, .. }) = &m.msg {
+                    let mut got = 0u128;
+                    for f in funds {
+                        *offered.entry(f.denom.clone()).or_insert(0) += f.amount.u128();
+                        let e = bal.entry(f.denom.clone()).or_insert(0);
+                        if f.amount.u128() > *e { ok = false; }
+                        *e = e.saturating_sub(f.amount.u128()); got += f.amount.u128();
+                    }
+                    if let Ok(basset::swap_ext::SwapExecteMsg::SwapDenom { target_denom, .. }) = from_json::<basset::swap_ext::SwapExecteMsg>(msg) { *bal.entry(target_denom).or_insert(0) += got; }
+                }
             }
-            // coins of other known denoms are swapped into uusd by earlier messages of the same response (simulated 1:1 here),
-            // so the final uusd offer may count on those proceeds; every coin itself is offered at most once
-            let known: std::collections::BTreeSet<String> = input["swap_denoms"].as_array().unwrap().iter().map(|d| d.as_str().unwrap().to_string()).collect();
-            let proceeds: u128 = held.iter().filter(|(d, _)| known.contains(*d) && d.as_str() != "usei" && d.as_str() != "uusd").map(|(_, a)| *a).sum();
-            let ok = offered.iter().all(|(d, a)| *a <= *held.get(d).unwrap_or(&0) + if d == "uusd" { proceeds } else { 0 });
             c.insert("dswap#never_offers_more_than_held".to_string(), ok);
             obs = json!({"offered": offered.iter().map(|(d, a)| json!([d, a.to_string()])).collect::<Vec<_>>()});
         }
